@@ -5,6 +5,7 @@ import (
 	"errors"
 	"fmt"
 	"io"
+	"strings"
 	"testing"
 
 	"github.com/netflix/rend/common"
@@ -331,6 +332,12 @@ func execC12(t *testing.T, p Plan, src kernel.Source) Result {
 				if ctl.fired {
 					w.Stat.FaultsFired[ctl.mode+"_"+ctl.target]++
 				}
+				// an Unlock of a lock that is not held ends a real process ("fatal error: sync:
+				// unlock of unlocked mutex" cannot be recovered); the simulated locks report it
+				if faults := w.Run.TakeFaults(); len(faults) > 0 {
+					viol("bad_unlock", class, "%s (%s): %s", op, fault, strings.Join(faults, "; "))
+					return
+				}
 				held, max := locksHeldBy(w.Run.LockLog)
 				for who, n := range held {
 					if n != 0 {
@@ -395,7 +402,17 @@ func execC12Deadlock(t *testing.T, p Plan, src kernel.Source) Result {
 			res.V = &Violation{Prop: "C12", Rule: "deadlock", Step: len(e.hist), Class: "deadlock", Msg: why}
 			return
 		}
-		_, max := locksHeldBy(w.Run.LockLog)
+		if faults := w.Run.TakeFaults(); len(faults) > 0 {
+			res.V = &Violation{Prop: "C12", Rule: "bad_unlock", Step: len(e.hist), Class: "bad_unlock:concurrent", Msg: strings.Join(faults, "; ")}
+			return
+		}
+		held, max := locksHeldBy(w.Run.LockLog)
+		for who, n := range held {
+			if n != 0 {
+				res.V = &Violation{Prop: "C12", Rule: "lock_leaked", Step: len(e.hist), Class: "lock_leaked:concurrent", Msg: fmt.Sprintf("connection %s still holds %d key lock(s) after all commands completed", who, n)}
+				return
+			}
+		}
 		for who, n := range max {
 			if n > 1 {
 				res.V = &Violation{Prop: "C12", Rule: "two_locks", Step: len(e.hist), Class: "two_locks:concurrent", Msg: fmt.Sprintf("connection %s held %d key locks at the same time", who, n)}
